@@ -358,7 +358,15 @@ void vfps::HDF5File::addParameterToGroup(std::string groupname,
 void vfps::HDF5File::append(const ElectricField* ef, const bool fullspectrum)
 {
     if (fullspectrum) {
-        _appendData(_csrSpectrum,ef->getCSRSpectrum());
+        /* The field keeps getNMax() values per bunch,
+         * the file only the first _maxn of each of them. */
+        std::vector<csrpower_t> spectrum;
+        spectrum.reserve(static_cast<size_t>(_nBunches)*_maxn);
+        for (uint32_t b=0; b<_nBunches; b++) {
+            const csrpower_t* row = ef->getCSRSpectrum()+b*ef->getNMax();
+            spectrum.insert(spectrum.end(),row,row+_maxn);
+        }
+        _appendData(_csrSpectrum,spectrum.data());
     }
     _appendData(_csrIntensity,ef->getCSRPower());
 }
